@@ -163,6 +163,7 @@ func loadSwx(repo string) (*swx, error) {
 }
 
 type swx struct {
+	escapes       []swRow // document payloads stored into caller-owned values (class payloadEscape)
 	perCallWrites map[string]int // per-call struct type (perCallTypes) → writes to its fields in reachable functions
 	extraRoots []string // further entry points (table ValidateWrites: document validation, router construction)
 	pkgList   []*packages.Package
@@ -447,7 +448,8 @@ func stdFresh(f *types.Func) bool {
 	}
 	switch f.Pkg().Path() + "." + f.Name() {
 	case "slices.Clone", "maps.Clone", "slices.Collect", "slices.Sorted", "slices.Concat", "slices.Repeat",
-		"strings.Split", "strings.SplitN", "strings.Fields", "strings.FieldsFunc", "bytes.Clone":
+		"strings.Split", "strings.SplitN", "strings.Fields", "strings.FieldsFunc", "bytes.Clone",
+		"github.com/mohae/deepcopy.Copy":
 		return true
 	}
 	return false
@@ -1502,6 +1504,11 @@ func (x *swx) scanFunc(fi *fnInfo) []swCand {
 				}
 				record(n, l, n, "")
 			}
+			if len(n.Lhs) == len(n.Rhs) {
+				for i, l := range n.Lhs {
+					x.noteEscape(fi, n, l, n.Rhs[i])
+				}
+			}
 		case *ast.IncDecStmt:
 			record(n, n.X, n, "")
 		case *ast.CallExpr:
@@ -1747,6 +1754,59 @@ func (x *swx) perCallRows() []string {
 	return rows
 }
 
+// isPayload: `any`, or a map / slice of it — the static type of default / example / enum / extension values.
+func isPayload(t types.Type) bool {
+	switch u := t.Underlying().(type) {
+	case *types.Interface:
+		return u.NumMethods() == 0
+	case *types.Map:
+		return isPayload(u.Elem())
+	case *types.Slice:
+		return isPayload(u.Elem())
+	}
+	return false
+}
+
+// noteEscape: `C[k] = e` / `C.f = e` where e is an `any`-typed payload that comes out of the shared document (not a
+// copy) and C is NOT document state and not a container allocated in this function: the document's own value becomes
+// part of a caller's value (the request body being validated), and whatever the call later writes into that value
+// — nested defaults — is written into the document (finding F-C15-1: `value[propName] = dflt`). Row class
+// `payloadEscape`.
+func (x *swx) noteEscape(fi *fnInfo, at ast.Node, lhs, rhs ast.Expr) {
+	p := fi.sf.pkg
+	switch ast.Unparen(lhs).(type) {
+	case *ast.IndexExpr, *ast.SelectorExpr:
+	default:
+		return
+	}
+	tv, ok := p.TypesInfo.Types[rhs]
+	if !ok || tv.Type == nil || !isPayload(tv.Type) || x.freshExpr(p, rhs, fi.lf) {
+		return
+	}
+	os, doc := x.originsOf(fi, rhs)
+	if !doc || len(os) == 0 {
+		return
+	}
+	w := x.walkLHS(p, lhs)
+	if w.unread || w.docField {
+		return // a write to the document itself: an ordinary row
+	}
+	id, ok := w.root.(*ast.Ident)
+	if !ok {
+		return
+	}
+	obj := p.TypesInfo.Uses[id]
+	if obj == nil {
+		obj = p.TypesInfo.Defs[id]
+	}
+	v, _ := obj.(*types.Var)
+	if v == nil || fi.lf[v] || fi.docAlias[v] {
+		return
+	}
+	file, line := x.pos(at.Pos())
+	x.escapes = append(x.escapes, swRow{file: file, line: line, fn: funcName(fi.sf.obj), target: x.text(at), root: "alias", sync: "payloadEscape"})
+}
+
 // storeIfAbsent: the write `M[k] = …` at pos sits in the absent-branch of a comma-ok lookup of M[k].
 func (x *swx) storeIfAbsent(sf *swFunc, lhs ast.Expr, pos token.Pos) bool {
 	ix, ok := ast.Unparen(lhs).(*ast.IndexExpr)
@@ -1813,6 +1873,14 @@ func shar_leanStr(s string) string {
 }
 
 func (x *swx) emit() string {
+	seenEsc := map[string]bool{}
+	for _, r := range x.escapes {
+		k := fmt.Sprintf("%s:%d", r.file, r.line)
+		if !seenEsc[k] {
+			seenEsc[k] = true
+			x.rows = append(x.rows, r)
+		}
+	}
 	sort.Slice(x.rows, func(i, j int) bool {
 		a, b := x.rows[i], x.rows[j]
 		if a.file != b.file {
